@@ -344,6 +344,37 @@ let run_case cid t h v ops =
             "zero=" ^ code (run_zero_after (n_of_int (nb / 2)) fuel (evs, out)) ] in
           Printf.printf "%s wfault fails=%s %s\n" cid (rle codes) (String.concat " " extra)
         end
+      | ["rfault"; stepstr] ->
+        (* Deserialize::deserialize_full as a program over read_exact, run against the same
+           fragmenting / interrupting / failing readers as the harness's FragReader *)
+        if out = SDone then begin
+          let nb = List.length bytes in
+          let rec nat_of i = if i = 0 then O else S (nat_of (i - 1)) in
+          let fuel = nat_of (2 * nb + 64) in
+          let prog = prog_full_top h dt in
+          let plain = (match deser_full_top h dt bytes with
+              | Ok ((v, _), p) -> "OK " ^ show_val v ^ " pos=" ^ hex_of_n p
+              | Err e -> "ERR " ^ show_err e | Panic _ -> "PANIC") in
+          let reader sizes intr failat =
+            let len = List.length sizes in
+            let cut calls _ = n_of_int (List.nth sizes ((int_of_n calls + 1) mod len)) in
+            let intrf calls = intr <> 0 && (int_of_n calls + 1) mod intr = 0 in
+            stream_reader bytes cut intrf failat in
+          let run sizes intr failat =
+            let r = reader sizes intr failat in
+            snd (run_io r fuel prog (Obj.magic (N0, N0)) N0) in
+          let parts = List.map (fun (name, sizes, intr) ->
+              let s = (match run sizes intr None with
+                  | IOk (v, p) -> "OK " ^ show_val v ^ " pos=" ^ hex_of_n p
+                  | IErr e -> "ERR " ^ show_err e | IPanic _ -> "PANIC" | INoOutcome -> "NOOUTCOME") in
+              name ^ "=" ^ (if s = plain then "same" else "DIFFERENT"))
+              [("one", [1], 0); ("three", [3], 0); ("primes", [2; 3; 5; 7; 11; 13], 0); ("mixintr", [1; 64; 2; 9], 2); ("bigintr", [1048576], 3)] in
+          let step = (try int_of_string stepstr with _ -> 1) in
+          let codes = List.map (fun k ->
+              match run [5; 1; 9] 0 (Some (n_of_int k)) with
+              | IOk _ -> "OK" | IErr e -> show_err e | IPanic _ -> "P" | INoOutcome -> "NOOUTCOME") (sampled nb step false) in
+          Printf.printf "%s rfault %s fails=%s\n" cid (String.concat " " parts) (rle codes)
+        end
       | ["place"; base] ->
         (* base address residues 0..127 *)
         if out = SDone then begin
